@@ -16,7 +16,13 @@
       the active one into the new screen.
 
   `stepOK t f t'` is that specification for one function `f` taking `t` to `t'`; it covers every
-  `Function` (lists of DEC modes longer than one only when no member saves or switches).
+  `Function`.
+
+  (4) a list of several DEC modes in one sequence (`CSI ? 1047 ; 1048 h`, `CSI ? 1048 ; 1047 h`,
+      `CSI ? 1047 ; 1049 l`, …) acts left to right, each member exactly like the single-mode sequence:
+      `afterDecset t ms` / `afterDecrst t ms` fold the single-mode rules over the list, threading which
+      screen is showing, the two contexts and (for DECSET, where a later `?1048`/`?1049` saves the
+      context in force at that point of the list) column, row, pen, origin mode and auto-wrap mode.
 -/
 import Avt.Spec.Base
 
@@ -94,6 +100,81 @@ def primaryCtx (t : Terminal) : SavedCtx :=
 def primaryFresh (t : Terminal) : Bool :=
   t.activeBufferType == .primary || (t.otherBuffer.cols == t.cols && t.otherBuffer.rows == t.rows)
 
+/-! ### lists of DEC modes: the members act left to right
+
+  Abstract state threaded through the list: which screen is showing, the context of that screen, the
+  context of the other one (`Screens`), and for DECSET the context a save would record at that point
+  (`ListSt.cur`).  What the members do to it:
+
+  * `?6h` sets origin mode and homes the cursor: column 0, row = top margin (margins are not changed
+    by any DEC mode, so it is the top margin of the state the list started in);
+  * `?7h` sets auto-wrap mode;
+  * `?1048h` records `cur` as the context of the screen that is showing;
+  * `?47h`/`?1047h` show the alternate screen (`Screens.show`): when the primary one was showing, the
+    two contexts are swapped and a fresh alternate buffer of the current size is built, so column, row,
+    pen and the two modes stay what they are; when the alternate one was already showing nothing
+    is swapped; in both cases the context that is active afterwards is clamped into the screen;
+  * `?1049h` = `?1048h` then `?1047h`;
+  * `?1h`, `?25h` change none of this.
+  * `?47l`/`?1047l`/`?1049l` show the primary screen; no member of a DECRST list writes a context
+    (`?1048l`, `?1049l` only read one), so for DECRST only `Screens` is threaded. -/
+
+/-- which screen is showing, its saved context, the other screen's saved context -/
+structure Screens where
+  active : BufferType
+  saved : SavedCtx
+  other : SavedCtx
+  deriving DecidableEq
+
+def Screens.of (t : Terminal) : Screens :=
+  { active := t.activeBufferType, saved := t.savedCtx, other := t.alternateSavedCtx }
+
+/-- `showScreen` on the threaded state: after showing screen `to` in a `cols × rows` terminal -/
+def Screens.show (cols rows : Nat) (sc : Screens) (to : BufferType) : Screens :=
+  if sc.active = to then { sc with saved := clampCtx cols rows sc.saved }
+  else { active := to, saved := clampCtx cols rows sc.other, other := sc.saved }
+
+/-- `t'` shows the screen and holds the two contexts of `sc` -/
+def Screens.holds (sc : Screens) (t' : Terminal) : Bool :=
+  t'.activeBufferType == sc.active && t'.savedCtx == sc.saved && t'.alternateSavedCtx == sc.other
+
+/-- state inside a DECSET list: the screens and `cur`, the context a save would record now -/
+structure ListSt where
+  scr : Screens
+  cur : SavedCtx
+
+/-- one member of a DECSET list (`top` = top margin) -/
+def setOne (cols rows top : Nat) (st : ListSt) : DecMode → ListSt
+  | .origin => { st with cur := { st.cur with cursorCol := 0, cursorRow := top, originMode := true } }
+  | .autoWrap => { st with cur := { st.cur with autoWrapMode := true } }
+  | .saveCursor => { st with scr := { st.scr with saved := st.cur } }
+  | .altScreenBuffer => { st with scr := st.scr.show cols rows .alternate }
+  | .saveCursorAltScreenBuffer =>
+    { st with scr := Screens.show cols rows { st.scr with saved := st.cur } .alternate }
+  | .cursorKeys | .textCursorEnable => st
+
+/-- one member of a DECRST list -/
+def rstOne (cols rows : Nat) (sc : Screens) : DecMode → Screens
+  | .altScreenBuffer | .saveCursorAltScreenBuffer => sc.show cols rows .primary
+  | _ => sc
+
+/-- expected screens (and current context) after `CSI ? ms h` in `t` -/
+def afterDecset (t : Terminal) (ms : List DecMode) : ListSt :=
+  ms.foldl (setOne t.cols t.rows t.topMargin) { scr := Screens.of t, cur := ctxOf t }
+
+/-- expected screens after `CSI ? ms l` in `t` -/
+def afterDecrst (t : Terminal) (ms : List DecMode) : Screens :=
+  ms.foldl (rstOne t.cols t.rows) (Screens.of t)
+
+/-- when the last member of a DECRST list is a restore, `t'` shows the context of the screen that
+    is showing at that point (which no later member can disturb): all of it after `?1048l`; pen and
+    the two modes after `?1049l` (whose position goes through the reflow of the primary buffer) -/
+def lastRestoreOK (ms : List DecMode) (t' : Terminal) : Bool :=
+  match ms.getLast? with
+  | some .saveCursor => restoredFrom t'.savedCtx t'
+  | some .saveCursorAltScreenBuffer => restoredModes t'.savedCtx t'
+  | _ => true
+
 /-- the specification of one function -/
 def stepOK (t : Terminal) (f : Function) (t' : Terminal) : Bool :=
   let pair := (t'.savedCtx, t'.alternateSavedCtx)
@@ -112,6 +193,8 @@ def stepOK (t : Terminal) (f : Function) (t' : Terminal) : Bool :=
           || (restoredModes (primaryCtx t) t'
               && (!primaryFresh t
                   || (t'.cursor.col == (primaryCtx t).cursorCol && t'.cursor.row == (primaryCtx t).cursorRow))))
+  | .decset ms => (afterDecset t ms).scr.holds t'
+  | .decrst ms => (afterDecrst t ms).holds t' && lastRestoreOK ms t'
   | .decstr => t'.savedCtx == defaultCtx && t'.alternateSavedCtx == t.alternateSavedCtx
   | .ris => t'.savedCtx == defaultCtx && t'.alternateSavedCtx == defaultCtx
   | f => touchesCtx f || ctxKept t t'
@@ -138,9 +221,12 @@ def clauseName (f : Function) : String :=
   | .decrc | .scorc => "restore-reestablishes-context"
   | .decstr | .ris => "reset-restores-default-context"
   | .decset ms =>
-    if ms.any (modeTouches true) then "decset-save-or-switch-contexts" else "frame-keeps-contexts"
+    if ms.any (modeTouches true) then
+      (if ms.length ≥ 2 then "decset-list-acts-left-to-right" else "decset-save-or-switch-contexts")
+    else "frame-keeps-contexts"
   | .decrst ms =>
-    if ms.any (modeTouches false) then "decrst-switch-contexts"
+    if ms.any (modeTouches false) then
+      (if ms.length ≥ 2 then "decrst-list-acts-left-to-right" else "decrst-switch-contexts")
     else if isRestore (.decrst ms) then "restore-reestablishes-context" else "frame-keeps-contexts"
   | _ => "frame-keeps-contexts"
 
